@@ -169,6 +169,9 @@ impl VM {
         self.instructions = code.instructions;
         self.ip = 0;
         self.bp = 0;
+        // a previous run that ended in an error can leave call frames and operands behind
+        self.stack.clear();
+        self.frames.truncate(1);
         self.frames[0].ip = 0;
         self.frames[0].base_pointer = 0;
 
